@@ -86,7 +86,11 @@ class Session:
 
         async def wrapper():
             R.RUN.set(rec)
-            return await chart.run(pipeline_id=pipeline_id or f'pid-{tag}', input_kwargs=input_kwargs)
+            try:
+                return await chart.run(pipeline_id=pipeline_id or f'pid-{tag}', input_kwargs=input_kwargs)
+            finally:
+                rec.end_seq = R.next_seq()  # the moment run() returned or raised
+                rec.end_pending = len(self.loop.pending)
 
         task = self.loop.create_task(wrapper(), name=f'MAIN-{tag}')
         h = RunHandle(rec, task, input_kwargs, before)
